@@ -94,7 +94,15 @@ func xfLinksWith(bs *blockSet, es []xfEntry, w string, mkDir func([]pbLink) pbLi
 }
 
 // snapshot of a tree: path -> description
-func snapshotTree(root string, skip string) map[string]string {
+// snapshotOutside: as snapshotTree, with the permission bits of every directory and file (the verdict covers
+// metadata: a chmod through a link changes something outside, too)
+func snapshotOutside(root string, skip string) map[string]string {
+	return snapshotWalk(root, skip, true)
+}
+
+func snapshotTree(root string, skip string) map[string]string { return snapshotWalk(root, skip, false) }
+
+func snapshotWalk(root string, skip string, modes bool) map[string]string {
 	out := map[string]string{}
 	filepath.Walk(root, func(p string, info os.FileInfo, err error) error {
 		if err != nil {
@@ -116,6 +124,9 @@ func snapshotTree(root string, skip string) map[string]string {
 		default:
 			b, _ := os.ReadFile(p)
 			out[rel] = fmt.Sprintf("file:%d:%s:%v", len(b), string(b), info.ModTime().UnixNano())
+		}
+		if modes && info.Mode()&os.ModeSymlink == 0 {
+			out[rel] += fmt.Sprintf(":mode=%o", info.Mode().Perm())
 		}
 		return nil
 	})
@@ -167,6 +178,9 @@ func runExtractCase(carBin string, c *xfCase, base string, form int) (string, st
 	os.MkdirAll(filepath.Join(w, "out2"), 0o755)
 	os.WriteFile(filepath.Join(w, "sent"), []byte("SENTINEL"), 0o644)
 	os.WriteFile(filepath.Join(w, "sdir", "f"), []byte("SENTINEL2"), 0o644)
+	os.Chmod(filepath.Join(w, "sdir"), 0o555) // unusual permission bits: a chmod/mkdir through a link would show
+	os.Chmod(filepath.Join(w, "sent"), 0o444)
+	defer os.Chmod(filepath.Join(w, "sdir"), 0o755)
 	for _, p := range c.Pre {
 		full := filepath.Join(append([]string{w, "out"}, p.Path...)...)
 		switch p.Node.T {
@@ -217,8 +231,8 @@ func runExtractCase(carBin string, c *xfCase, base string, form int) (string, st
 	}
 	carPath := filepath.Join(sand, "in.car")
 	os.WriteFile(carPath, bs.carV1(roots), 0o644)
-	before := snapshotTree(w, filepath.Join(w, "out"))
-	beforeSand := snapshotTree(sand, w)
+	before := snapshotOutside(w, filepath.Join(w, "out"))
+	beforeSand := snapshotOutside(sand, w)
 	xargs := []string{"extract", "-f", carPath}
 	if len(c.Mp) > 0 {
 		xargs = append(xargs, "-p", strings.Join(c.Mp, "/"))
@@ -238,8 +252,8 @@ func runExtractCase(carBin string, c *xfCase, base string, form int) (string, st
 	} else {
 		outb, err = cmd.CombinedOutput()
 	}
-	after := snapshotTree(w, filepath.Join(w, "out"))
-	afterSand := snapshotTree(sand, w)
+	after := snapshotOutside(w, filepath.Join(w, "out"))
+	afterSand := snapshotOutside(sand, w)
 	diff := func(a, b map[string]string) string {
 		var d []string
 		for k, v := range a {
